@@ -23,7 +23,7 @@ Proof.
     rewrite firstn_length. split; [lia|].
     exists (Nat.min (Nat.min (length s) m) (length s)). rewrite nsteps_latin1 by lia.
     replace (Nat.min (Nat.min (length s) m) (length s)) with (Nat.min (length s) m) by lia. reflexivity.
-  - intros s m out H. unfold xc_latin1, l1_from in H. inversion H as [[H1 H2]]; clear H.
+  - intros s m out Hm H. unfold xc_latin1, l1_from in H. inversion H as [[H1 H2]]; clear H.
     rewrite firstn_length in H2. destruct s as [|b s]; [left; reflexivity|].
     right. exists [b], 1%nat. split; [reflexivity|]. cbn [length] in *. lia.
   - intros s m e H. discriminate.
@@ -54,7 +54,7 @@ Proof.
   - intros s H. destruct s as [|b0 [|b1 s]]; try discriminate; cbn; lia.
   - intros s m out eaten H. unfold xc_utf16 in H. inversion H; subst; clear H.
     split; [apply u16_from_len|]. eexists. apply u16_from_nsteps.
-  - intros s m out H. unfold xc_utf16 in H. inversion H as [[H1 H2]]; clear H.
+  - intros s m out Hm H. unfold xc_utf16 in H. inversion H as [[H1 H2]]; clear H.
     assert (E : u16_from sw s m = []) by (destruct (u16_from sw s m); [reflexivity|cbn in H2; lia]).
     destruct s as [|b0 [|b1 s]]; [left; reflexivity|left; reflexivity|].
     right. eexists. exists 2%nat. split; [reflexivity|].
